@@ -42,7 +42,7 @@ def invalid_values(T, n=2):
         out += pool[:3]
     v = z3.String('v')
     s = z3.Solver()
-    s.set('timeout', 5000)
+    s.set('timeout', 60000)
     plain = z3.Plus(rx.cls([c for c in rx.SIGMA if c.isascii() and (c.isalnum() or c in '#.-')]))
     s.add(z3.Not(L.str_ok(v, True)), z3.InRe(v, plain), z3.Length(v) <= 8)
     if L.kind in ('decimal', 'integer'):
@@ -154,6 +154,41 @@ def judge_pair(name, a, tier):
                     break
             elif hist.classify_exception(ex, 'ATTR'):
                 found.append(('internal-error:%s:%s' % (route, exc), '%s=%r: %s' % (attr, v, str(ex)[:100])))
+                break
+    # overwriting must behave like assigning to a fresh element: same acceptance, same stored value, same emitted text
+    if good and not found and ':' not in attr and attr != 'name':
+        py = docs.py_attr(attr)
+        seconds = list(good) + list(bad)
+        for v in good:
+            if isinstance(v, int) and not isinstance(v, bool):
+                seconds += [float(v)] + ([bool(v)] if v in (0, 1) else []) + [str(v)]
+            elif isinstance(v, float) and v == int(v):
+                seconds += [int(v)]
+        for first in good[:2]:
+            for second in seconds:
+                if a.get('fixed'):
+                    continue
+                def run(pre):
+                    with lib.Capture():
+                        e = fresh(name)
+                        try:
+                            if pre:
+                                setattr(e, py, first)
+                            setattr(e, py, second)
+                        except Exception as ex:
+                            return ('raises', type(ex).__name__, repr(e.attributes.get(attr)) if pre else None)
+                        return ('ok', repr(e.attributes.get(attr)), serialised_attrs(e).get(attr))
+                try:
+                    r1, r2 = run(True), run(False)
+                except Exception:
+                    continue
+                if r1[0] != r2[0] or (r1[0] == 'ok' and r1 != r2):
+                    found.append(('overwrite-differs-from-fresh-assignment', '%s: %r then %r gives %s, on a fresh element %s' % (attr, first, second, r1, r2)))
+                    break
+                if r1[0] == 'raises' and r1[2] != repr(first):
+                    found.append(('failed-overwrite-changes-attribute', '%s: %r then %r left %s' % (attr, first, second, r1[2])))
+                    break
+            if found:
                 break
     # overwrite / remove / failed overwrite keeps the old value
     if good and not found and ':' not in attr:
